@@ -1949,8 +1949,24 @@ func (g *farmGen) coincident(v *farmView) []rig.Tx {
 		if total.Cmp(g.bal(v, cr, d)) > 0 {
 			continue
 		}
-		msg := &farmtypes.MsgCreatePool{Description: "coincident", LptDenom: v.lpts[0], StartHeight: v.h + 1, RewardPerBlock: sdk.NewCoins(coin(d, rate)), TotalReward: sdk.NewCoins(coin(d, total)), Editable: false, Creator: cr.Addr.String()}
-		txs = append(txs, g.r.Mk(cr, &farmTag{Kind: "create", Note: "coincident"}, msg))
+		rpb, tot := sdk.NewCoins(coin(d, rate)), sdk.NewCoins(coin(d, total))
+		note := "coincident"
+		if i == 2 && v.s.Params.MaxRewardCategories >= 2 {
+			// the third pool pays in two denominations: this one is distributed to the last unit, the second one ends
+			// with a remainder - the refund at the end has to return that remainder although one budget is exactly empty
+			for _, d2 := range g.rew {
+				rate2 := big.NewInt(int64(1000 + rng.Intn(900000)))
+				total2 := new(big.Int).Add(new(big.Int).Mul(rate2, big.NewInt(life)), big.NewInt(int64(1+rng.Intn(999))))
+				if d2 != d && total2.Cmp(g.bal(v, cr, d2)) <= 0 {
+					rpb, tot = rpb.Add(coin(d2, rate2)), tot.Add(coin(d2, total2))
+					note = "coincident/one-budget-exact-one-with-remainder"
+					g.run.Count("coincident-pool-with-one-exact-and-one-leftover-budget", 1)
+					break
+				}
+			}
+		}
+		msg := &farmtypes.MsgCreatePool{Description: "coincident", LptDenom: v.lpts[0], StartHeight: v.h + 1, RewardPerBlock: rpb, TotalReward: tot, Editable: false, Creator: cr.Addr.String()}
+		txs = append(txs, g.r.Mk(cr, &farmTag{Kind: "create", Note: note}, msg))
 		g.nCreated++
 		g.run.Count("coincident-pools-created", 1)
 	}
